@@ -46,6 +46,11 @@ def families(tier, which=("any", "kwarg", "digits", "octal", "words", "long")):
     if "any" in which:
         for L in range(0, (4 if q else 5) + 1):        # 6 arbitrary characters: path explosion in the escaping loops (measured)
             yield ("any%d" % L, anychars(L) if L else [""], [])
+    if "strarg" in which:
+        # text arguments of 1-2 arbitrary code points (incl. non-ASCII: UTF-8 widths 1-4) at keywords that reach different generators
+        for kw in ("-name", "-ipath", "-pool", "-fprint0", "-xattr"):
+            for k in ((1, 2) if q else (1, 2, 3)):
+                yield ("%s~%d" % (kw, k), [kw + " "] + anychars(k), [])
     if "kwarg" in which:
         for kw in ALL_ARG_KW:
             for k in ((0, 2) if q else (0, 1, 2, 3)):
